@@ -520,99 +520,100 @@ Definition consume_extended_pattern_character (s : vst) : bool * vst :=
 Definition consume_bs_followed_by_c (s : vst) : bool * vst :=
   if is c_bs (cp 0 s) && is 99 (cp 1 s) then (true, advance (s <| liv := 92%Z |>)) else (false, s).
 
-(* ---- the recursive knot: one fuel unit per call level ---- *)
-Fixpoint disjunction (f : nat) (s : vst) {struct f} : R unit :=
-  match f with O => OutOfFuel | S f =>
-    let* (_, s1) := alternative f s in
-    let* (_, s2) := (fix bars (g : nat) (s : vst) {struct g} : R unit :=
-                       match g with O => OutOfFuel | S g =>
-                         let '(b, s') := eat c_bar s in
-                         if b then let* (_, s'') := alternative f s' in bars g s'' else Ok tt s' end)
-                      (fuel_of s1) s1 in
-    let* (q, s3) := consume_quantifier true s2 in
-    if q then SyntaxErr E_nothing s3 else
-    let '(b, s4) := eat c_lc s3 in
-    if b then SyntaxErr E_lone s4 else Ok tt s4
-  end
-with alternative (f : nat) (s : vst) {struct f} : R unit :=
-  match f with O => OutOfFuel | S f =>
+(* ---- the recursive knot ----
+   consume_disjunction -> consume_alternative -> consume_term -> consume_assertion / consume_atom /
+   consume_extended_atom -> consume_(un)capturing_group -> consume_disjunction.
+   The functions below take the recursive call `disj` (consume_disjunction one nesting level deeper) as a
+   parameter; `disjunction f` ties the knot with f = remaining nesting depth.  The two `while` loops
+   (terms of an alternative, alternatives of a disjunction) have their own fuel. *)
+Section Knot.
+Variable disj : vst -> R unit.
+
+Definition assertion (s : vst) : R bool :=
+  let start := pos s in
+  let s := s <| laq := false |> in
+  let '(b, s1) := eat c_caret s in if b then Ok true s1 else
+  let '(b, s1) := eat c_dollar s1 in if b then Ok true s1 else
+  let '(b, s1) := eat2 c_bs 66 s1 in if b then Ok true s1 else
+  let '(b, s1) := eat2 c_bs 98 s1 in if b then Ok true s1 else
+  let '(b, s1) := eat2 c_lp c_q s1 in
+  if b then
+    let '(lookbehind, s2) := eat c_lt s1 in
+    let '(fl, s3) := eat c_eq s2 in
+    let '(fl, s3) := if fl then (true, s3) else eat c_bang s3 in
+    if fl then
+      let* (_, s4) := disj s3 in
+      let '(cl, s5) := eat c_rp s4 in
+      if negb cl then SyntaxErr E_unterm_group s5 else Ok true (s5 <| laq := negb lookbehind && negb (strict s5) |>)
+    else Ok false (rewind start s3)
+  else Ok false s1.
+Definition uncapturing_group (s : vst) : R bool :=
+  let '(b, s1) := eat3 c_lp c_q c_colon s in
+  if b then
+    let* (_, s2) := disj s1 in
+    let '(cl, s3) := eat c_rp s2 in if cl then Ok true s3 else SyntaxErr E_unterm_group s3
+  else Ok false s1.
+Definition capturing_group (s : vst) : R bool :=
+  let '(b, s1) := eat c_lp s in
+  if negb b then Ok false s1 else
+  let* (_, s2) := consume_group_specifier s1 in
+  let* (_, s3) := disj s2 in
+  let '(cl, s4) := eat c_rp s3 in if cl then Ok true s4 else SyntaxErr E_unterm_group s4.
+Definition atom (s : vst) : R bool :=
+  let '(b, s1) := consume_pattern_character s in if b then Ok true s1 else
+  let '(b, s1) := eat c_dot s1 in if b then Ok true s1 else
+  let* (b, s2) := consume_reverse_solidus_atom_escape s1 in if b then Ok true s2 else
+  let* (b, s3) := consume_character_class s2 in if b then Ok true s3 else
+  let* (b, s4) := uncapturing_group s3 in if b then Ok true s4 else
+  capturing_group s4.
+Definition extended_atom (s : vst) : R bool :=
+  let '(b, s1) := eat c_dot s in if b then Ok true s1 else
+  let* (b, s2) := consume_reverse_solidus_atom_escape s1 in if b then Ok true s2 else
+  let '(b, s3) := consume_bs_followed_by_c s2 in if b then Ok true s3 else
+  let* (b, s4) := consume_character_class s3 in if b then Ok true s4 else
+  let* (b, s5) := uncapturing_group s4 in if b then Ok true s5 else
+  let* (b, s6) := capturing_group s5 in if b then Ok true s6 else
+  let* (b, s7) := eat_braced_quantifier true s6 in if b then SyntaxErr E_nothing s7 else
+  let '(b, s8) := consume_extended_pattern_character s7 in Ok b s8.
+Definition term (s : vst) : R bool :=
+  if uflag s || strict s then
+    let* (a, s1) := assertion s in
+    if a then Ok true s1 else
+    let* (b, s2) := atom s1 in
+    if b then let* (_, s3) := consume_quantifier false s2 in Ok true s3 else Ok false s2
+  else
+    let* (a, s1) := assertion s in
+    let* (ok, s2) := (if a then (if negb (laq s1) then Ok true s1
+                                 else let* (_, s2) := consume_quantifier false s1 in Ok true s2)
+                      else Ok false s1) in
+    if ok then Ok true s2 else
+    let* (b, s3) := extended_atom s2 in
+    if b then let* (_, s4) := consume_quantifier false s3 in Ok true s4 else Ok false s3.
+(* while cp(0).is_some() && consume_term()? {} *)
+Fixpoint alternative (g : nat) (s : vst) : R unit :=
+  match g with O => OutOfFuel | S g =>
     match cp 0 s with
     | None => Ok tt s
-    | Some _ => let* (b, s1) := term f s in if b then alternative f s1 else Ok tt s1
+    | Some _ => let* (b, s1) := term s in if b then alternative g s1 else Ok tt s1
     end
-  end
-with term (f : nat) (s : vst) {struct f} : R bool :=
-  match f with O => OutOfFuel | S f =>
-    if uflag s || strict s then
-      let* (a, s1) := assertion f s in
-      if a then Ok true s1 else
-      let* (b, s2) := atom f s1 in
-      if b then let* (_, s3) := consume_quantifier false s2 in Ok true s3 else Ok false s2
-    else
-      let* (a, s1) := assertion f s in
-      let* (ok, s2) := (if a then (if negb (laq s1) then Ok true s1
-                                   else let* (_, s2) := consume_quantifier false s1 in Ok true s2)
-                        else Ok false s1) in
-      if ok then Ok true s2 else
-      let* (b, s3) := extended_atom f s2 in
-      if b then let* (_, s4) := consume_quantifier false s3 in Ok true s4 else Ok false s3
-  end
-with assertion (f : nat) (s : vst) {struct f} : R bool :=
-  match f with O => OutOfFuel | S f =>
-    let start := pos s in
-    let s := s <| laq := false |> in
-    let '(b, s1) := eat c_caret s in if b then Ok true s1 else
-    let '(b, s1) := eat c_dollar s1 in if b then Ok true s1 else
-    let '(b, s1) := eat2 c_bs 66 s1 in if b then Ok true s1 else
-    let '(b, s1) := eat2 c_bs 98 s1 in if b then Ok true s1 else
-    let '(b, s1) := eat2 c_lp c_q s1 in
-    if b then
-      let '(lookbehind, s2) := eat c_lt s1 in
-      let '(fl, s3) := eat c_eq s2 in
-      let '(fl, s3) := if fl then (true, s3) else eat c_bang s3 in
-      if fl then
-        let* (_, s4) := disjunction f s3 in
-        let '(cl, s5) := eat c_rp s4 in
-        if negb cl then SyntaxErr E_unterm_group s5 else Ok true (s5 <| laq := negb lookbehind && negb (strict s5) |>)
-      else Ok false (rewind start s3)
-    else Ok false s1
-  end
-with atom (f : nat) (s : vst) {struct f} : R bool :=
-  match f with O => OutOfFuel | S f =>
-    let '(b, s1) := consume_pattern_character s in if b then Ok true s1 else
-    let '(b, s1) := eat c_dot s1 in if b then Ok true s1 else
-    let* (b, s2) := consume_reverse_solidus_atom_escape s1 in if b then Ok true s2 else
-    let* (b, s3) := consume_character_class s2 in if b then Ok true s3 else
-    let* (b, s4) := uncapturing_group f s3 in if b then Ok true s4 else
-    capturing_group f s4
-  end
-with extended_atom (f : nat) (s : vst) {struct f} : R bool :=
-  match f with O => OutOfFuel | S f =>
-    let '(b, s1) := eat c_dot s in if b then Ok true s1 else
-    let* (b, s2) := consume_reverse_solidus_atom_escape s1 in if b then Ok true s2 else
-    let '(b, s3) := consume_bs_followed_by_c s2 in if b then Ok true s3 else
-    let* (b, s4) := consume_character_class s3 in if b then Ok true s4 else
-    let* (b, s5) := uncapturing_group f s4 in if b then Ok true s5 else
-    let* (b, s6) := capturing_group f s5 in if b then Ok true s6 else
-    let* (b, s7) := eat_braced_quantifier true s6 in if b then SyntaxErr E_nothing s7 else
-    let '(b, s8) := consume_extended_pattern_character s7 in Ok b s8
-  end
-with uncapturing_group (f : nat) (s : vst) {struct f} : R bool :=
-  match f with O => OutOfFuel | S f =>
-    let '(b, s1) := eat3 c_lp c_q c_colon s in
-    if b then
-      let* (_, s2) := disjunction f s1 in
-      let '(cl, s3) := eat c_rp s2 in if cl then Ok true s3 else SyntaxErr E_unterm_group s3
-    else Ok false s1
-  end
-with capturing_group (f : nat) (s : vst) {struct f} : R bool :=
-  match f with O => OutOfFuel | S f =>
-    let '(b, s1) := eat c_lp s in
-    if negb b then Ok false s1 else
-    let* (_, s2) := consume_group_specifier s1 in
-    let* (_, s3) := disjunction f s2 in
-    let '(cl, s4) := eat c_rp s3 in if cl then Ok true s4 else SyntaxErr E_unterm_group s4
   end.
+(* while eat('|') { consume_alternative()? } *)
+Fixpoint bars (g : nat) (s : vst) : R unit :=
+  match g with O => OutOfFuel | S g =>
+    let '(b, s') := eat c_bar s in
+    if b then let* (_, s'') := alternative (fuel_of s') s' in bars g s'' else Ok tt s'
+  end.
+Definition disjunction_body (s : vst) : R unit :=
+  let* (_, s1) := alternative (fuel_of s) s in
+  let* (_, s2) := bars (fuel_of s1) s1 in
+  let* (q, s3) := consume_quantifier true s2 in
+  if q then SyntaxErr E_nothing s3 else
+  let '(b, s4) := eat c_lc s3 in
+  if b then SyntaxErr E_lone s4 else Ok tt s4.
+End Knot.
+
+Fixpoint disjunction (f : nat) (s : vst) : R unit :=
+  match f with O => OutOfFuel | S f => disjunction_body (disjunction f) s end.
 
 (* count_capturing_parens over the units from the current index (it rewinds to where it started) *)
 Fixpoint count_parens (l : list N) (in_class escaped : bool) (acc : N) : N :=
@@ -631,7 +632,8 @@ Fixpoint count_parens (l : list N) (in_class escaped : bool) (acc : N) : N :=
   end.
 Definition count_capturing_parens (s : vst) : N := count_parens (skipn (pos s) (units (rd s))) false false 0.
 
-Definition pattern_fuel (s : vst) : nat := 8 * remaining s + 16.
+(* nesting depth available to consume_disjunction: every level of nesting consumes at least one `(` *)
+Definition pattern_fuel (s : vst) : nat := S (remaining s).
 
 Definition consume_pattern (s : vst) : R unit :=
   let s := s <| ncap := count_capturing_parens s |> <| gnames := [] |> <| brnames := [] |> in
